@@ -225,6 +225,50 @@ func universeWriteScan(p *core.Program, r *core.Report, rule string, only map[*c
 			}
 			r.Bad(rule, f, "loaded package state is written after Load: "+core.ExprStr(w), w.Pos(), "a method of the loaded universe mutates its receiver while generators run: answers (doc lines, tables) may depend on earlier calls")
 		}
+		// a slice read from the record shares its backing array with it: appending into it (or a reslice of it) and
+		// assigning its elements writes the record
+		sharesRecord := func(e ast.Expr) bool {
+			for i := 0; i < 12; i++ {
+				e, _ = core.Resolve(info, root.Body, e)
+				switch x := ast.Unparen(e).(type) {
+				case *ast.SliceExpr:
+					e = x.X
+					continue
+				case *ast.IndexExpr:
+					if isMapType(info.TypeOf(x.X)) || core.Mentions(info, x.X, recvObj) {
+						return core.Mentions(info, x.X, recvObj)
+					}
+					e = x.X
+					continue
+				case *ast.SelectorExpr:
+					return core.Mentions(info, x, recvObj)
+				}
+				return false
+			}
+			return false
+		}
+		ast.Inspect(f.Body, func(nd ast.Node) bool {
+			if lit, ok := nd.(*ast.FuncLit); ok && lit != f.Lit {
+				return false
+			}
+			switch x := nd.(type) {
+			case *ast.CallExpr:
+				if core.CalleeName(info, x) == "builtin.append" && len(x.Args) >= 1 {
+					if _, isSlice := info.TypeOf(x.Args[0]).Underlying().(*types.Slice); isSlice && sharesRecord(x.Args[0]) {
+						r.Bad(rule, f, "append into a slice that shares its backing array with the loaded record: "+core.ExprStr(x), x.Pos(), "the first operand is (a reslice of) a slice stored in the loaded package: append overwrites the stored elements in place, later queries of the same table see the overwritten entries")
+					}
+				}
+			case *ast.AssignStmt:
+				for _, l := range x.Lhs {
+					if ix, ok := ast.Unparen(l).(*ast.IndexExpr); ok && !core.Mentions(info, l, recvObj) {
+						if _, isSlice := info.TypeOf(ix.X).Underlying().(*types.Slice); isSlice && sharesRecord(ix.X) {
+							r.Bad(rule, f, "element store into a slice that shares its backing array with the loaded record: "+core.ExprStr(x), x.Pos(), "the slice was read from the loaded package: the store changes what later queries return")
+						}
+					}
+				}
+			}
+			return true
+		})
 		ast.Inspect(f.Body, func(nd ast.Node) bool {
 			if lit, ok := nd.(*ast.FuncLit); ok && lit != f.Lit {
 				return false
